@@ -360,8 +360,40 @@ def check_map(inp):
 # }}}
 
 
+def check_python_generator(counter):
+    """the Python GENERATOR's own lookups: an IR name used as a loop counter and inside the loop body must come out as one
+    identifier, in the storage its class asks for (the manager decides the class; a call site must not decide it again)"""
+    import re
+    from dagrt.codegen import PythonCodeGenerator
+    from dagrt.language import CodeBuilder, DAGCode, ExecutionPhase
+    with CodeBuilder(name="main") as cb:
+        cb("<p>acc", "0")
+        cb("<p>acc", "<p>acc + %s + 1" % counter, loops=[(counter, 0, 4)])
+        cb.yield_state("<p>acc", "result", 0, "final")
+    code = DAGCode.from_phases_list([ExecutionPhase(name="main", next_phase="main", statements=cb.statements)], "main")
+    source = PythonCodeGenerator(class_name="Method")(code)
+    loops = re.findall(r"for (\S+) in range\([^\n]*\):\n\s*([^\n]+)", source)
+    if len(loops) != 1:
+        return None
+    hdr, body = loops[0]
+    m = re.search(r"\+\s*([\w.]+)\s*\+\s*1\s*$", body)
+    if m is None:
+        return None
+    vs = []
+    if hdr != m.group(1):
+        vs.append(_viol("stable", "IR name %r is %r in the loop header but %r in the loop body of the generated code"
+                        % (counter, hdr, m.group(1))))
+    if must_be_persistent(counter) and not hdr.startswith("self."):
+        vs.append(_viol("storage", "persistent name %r is bound as the local %r by the generated loop header" % (counter, hdr)))
+    if not must_be_persistent(counter) and not storage_unspecified(counter) and hdr.startswith("self."):
+        vs.append(_viol("storage", "per-step name %r is kept in instance storage (%r) by the generated loop header" % (counter, hdr)))
+    return vs
+
+
 def check(inp):
     t = inp.get("target")
+    if t == "python-generator":
+        return check_python_generator(inp["counter"]) or []
     if t == "python":
         return check_python(inp["ops"])
     if t == "fortran":
@@ -695,6 +727,24 @@ def bounded(payload):
             samples.append(inp)
         run(inp)
         parts["map_inputs"] += 1
+
+    # the Python generator's own call sites (loop header vs. loop body) for persistent and per-step counters
+    parts["generator_call_site_names"] = 0
+    for counter in ("<p>idx", "<state>i", "k", "i_1", "<p>K", "local_k", "idx"):
+        inp = {"target": "python-generator", "counter": counter}
+        try:
+            vs = check_python_generator(counter)
+        except Exception:
+            continue                   # the builder / generator refuses the program: nothing to observe
+        if vs is None:
+            continue
+        evals += 1
+        parts["generator_call_site_names"] += 1
+        for clause in sorted(set(v["clause"] for v in vs)):
+            cname = "python-generator:%s" % clause
+            classes[cname] = classes.get(cname, 0) + 1
+            failures.append({"oracle": cname, "input": dict(inp, clause=clause),
+                             "detail": "; ".join(v["detail"] for v in vs if v["clause"] == clause), "matching_fingerprints": []})
 
     known_hits = []
     for e in payload.get("known", []):
